@@ -1,7 +1,7 @@
 """C01 - parallel (multi-thread) results equal the sequential execution."""
 from props import runlib
 
-THEOREMS = ["RootSim.C01.forward_records_outputs", "RootSim.C01.matchStraggler_spec", "RootSim.C01.lp_state_is_fold",
+THEOREMS = ["RootSim.C01.history_stays_sorted", "RootSim.C01.forward_records_outputs", "RootSim.C01.matchStraggler_spec", "RootSim.C01.lp_state_is_fold",
             "RootSim.C05LP.run_exact", "RootSim.C05LP.rollback_exact"]
 
 
@@ -12,7 +12,7 @@ def run(ctx):
                     "re-executing sampled real runs on the model and comparing the result with the Lean sequential executor"]
     ctx.assumptions += ["valid-model contract V1-V5 (DESIGN 2.8); GenModel instances satisfy it by construction",
                         "runs that end in the known shutdown deadlock F1 (C08) are compared up to the hang"]
-    runlib.lean_part(ctx, "RootSim.Props.C01", THEOREMS)
+    runlib.lean_part(ctx, "RootSim.Props.C01Sorted", THEOREMS)
     agg = runlib.run_matrix(ctx, "par re-execution + final LP states vs Lean sequential executor",
                             40, 1200, oracle_keys=("s_rb_mismatch", "s_below_gvt", "s_double_free"),
                             threads=(1, 2, 3, 4, 6), ckpts=(1, 2, 3, 7, 0))
